@@ -260,6 +260,9 @@ def check(prog, res, tier):
         rv = p.value.fields.get('random_value')
         if not isinstance(rv, IntV):
             return [definite(f'random fill is {rv!r}')]
+        if 'def-time' in rv.tags:
+            return [definite('the random fill is computed in a parameter default, i.e. once at import time: every block built '
+                             'without an explicit fill shares the same 64 bits')]
         if 'secrets' not in rv.tags:
             return [definite(f'random fill does not come from the secrets module (origin: '
                              f'{p.interp.origin.get(rv.lin.syms()[0]) if rv.lin.syms() else rv})')]
@@ -323,6 +326,29 @@ def cipher_ob(prog, res, fi, alg, ctx, oid, title):
             fails.append(definite(f'cipher mode is {modes_}, expected ECB'))
         if meths != [ctx]:
             fails.append(definite(f'uses {meths}, expected .{ctx}()'))
+        # the cipher key must be the caller's key material, whole and unmodified
+        for e in p.evs('ext-call'):
+            if e.data['callee'].split('.')[-1] in ('TripleDES', 'AES') and e.data['args']:
+                k = p.interp.resolve(e.data['args'][0])
+                if not _whole_key(p, k):
+                    fails.append(definite(f'the cipher is keyed with {k!r}, not the key supplied by the caller', e.node))
         return fails
     return runs.judge(oid, title, func_where(fi), f'Cipher({alg}(key), modes.ECB()).{ctx}()', chk,
                       rule=f'{oid}.{fi.short}', unknown_ok=lambda u: True)
+
+
+def _whole_key(p, k):
+    """k is a whole key parameter (bytes) or unhexlify of a whole hex-string parameter."""
+    st = p.store
+
+    def whole_param(x):
+        return isinstance(x, SeqV) and len(x.segs) == 1 and isinstance(x.segs[0], Sl) and st.decide_eq0(x.segs[0].lo) is True \
+            and st.decide_eq0(x.segs[0].hi - x.segs[0].src.length) is True and 'key' in x.segs[0].src.name
+    if whole_param(k):
+        return True
+    if isinstance(k, SeqV) and len(k.segs) == 1 and isinstance(k.segs[0], Opq) and isinstance(k.segs[0].desc, tuple) \
+            and k.segs[0].desc[0] == 'unhexlify':
+        return whole_param(k.segs[0].desc[1])
+    if isinstance(k, SeqV) and len(k.segs) == 1 and isinstance(k.segs[0], Opq) and k.segs[0].desc == 'unhexlify' and k.segs[0].deps:
+        return whole_param(k.segs[0].deps[0])
+    return False
